@@ -9,7 +9,14 @@ import (
 // wrapped in a slice / map / map-of-slice), strings and byte slices carry n
 // symbolic bytes, and it is driven through every read shape of c04Read.
 
-const c04AnyLeaves = 18
+const c04AnyLeaves = 26
+
+// named types: the reader sees them through reflection only
+type c04NamedBytes []byte
+type c04NamedByte uint8
+type c04NamedString string
+type c04NamedMap map[string]any
+type c04NamedSlice []any
 
 func c04AnyLeaf(kind, n int) any {
 	switch kind {
@@ -48,6 +55,22 @@ func c04AnyLeaf(kind, n int) any {
 		return uint8(3)
 	case 16:
 		return []int{1}
+	case 17:
+		return c04NamedBytes(verif.Bytes(n))
+	case 18:
+		return []c04NamedByte{1, 0xC3}
+	case 19:
+		return c04NamedString(verif.String(n))
+	case 20:
+		return map[string]string{"a": "b"}
+	case 21:
+		return c04NamedMap{"a": int32(1)}
+	case 22:
+		return c04NamedSlice{"x"}
+	case 23:
+		return (map[string]any)(nil)
+	case 24:
+		return ([]byte)(nil)
 	}
 	return [2]int{}
 }
